@@ -70,6 +70,10 @@ def _expected(sel, w1, w2, s1, s2, i):
             r, c = _stage(X + Y + r0, *s1); cls.append(c)
         else:
             r = []
+    elif sel == 10:  # a strided / reversed slice between plain parts and a nested concat
+        r, c = _stage(X, *s1); cls.append(c)
+        r0, c0 = _istage(X, i); cls.append(c0)
+        r = Y + r + Y + r0
     if "must_reject" in cls:
         return None, "must_reject"
     return r, ("must_accept" if all(c == "must_accept" for c in cls) else "may")
@@ -110,6 +114,8 @@ def _build(sel, w1, w2, s1, s2, i):
         e = sl(top.bb.m, s1)[i]
     elif sel == 9:
         e = sl(h.Concat(h.Concat(x, y), x[i]), s1)
+    elif sel == 10:
+        e = h.Concat(y, sl(x, s1), h.Concat(y, x[i]))
     return top, e
 
 
@@ -192,13 +198,14 @@ def _parts(sels, steps1):
                             ("s1p2", "sel == 1 and w1 == 3 and i == 0 and c1 == 2 and c2 == -1 and a1 == 99 and b1 == 99 and (-2 <= a2 <= 2 or a2 == 99) and (-2 <= b2 <= 2 or b2 == 99)"),
                             ("s6m2", "sel == 6 and w1 == 3 and c1 == -2 and (a1 == 99 or a1 == 1) and b1 == 99 and -2 <= i <= 1"),
                             ("s6p2", "sel == 6 and w1 == 3 and c1 == 2 and a1 == 99 and b1 == 99 and -2 <= i <= 1"),
+                            ("s10", "sel == 10 and w1 == 3 and (c1 == -1 or c1 == 2) and a1 == 99 and b1 == 99 and -1 <= i <= 0"),
                             ("s3m2", "sel == 3 and w1 == 3 and i == 0 and c1 == -2 and a1 == 99 and b1 == 99 and c2 == 1 and a2 == 1 and b2 == 99")]},
              "thorough": {"timeout": 700, "pre": ["a2 == 0 and b2 == 0 and c2 == 1 or sel == 1 or sel == 3", "i == 0 or sel >= 4"],
                           "parts":
                               # single-stage families: every bound in [-4,4] or None (beyond +-3 is out of range for W=3), all 6 steps
                               parts_product([(f"s{s}", f"sel == {s} and (-4 <= a1 <= 4 or a1 == 99) and (-4 <= b1 <= 4 or b1 == 99)") for s in (0, 2, 9)],
                                             [(f"c{c}".replace("-", "m"), f"c1 == {c}") for c in (1, -1, 2, -2, 3, -3)]) +
-                              parts_product([(f"s{s}", f"sel == {s} and (-3 <= a1 <= 3 or a1 == 99) and (-3 <= b1 <= 3 or b1 == 99) and -3 <= i <= 2") for s in (5, 6, 7, 8)],
+                              parts_product([(f"s{s}", f"sel == {s} and (-3 <= a1 <= 3 or a1 == 99) and (-3 <= b1 <= 3 or b1 == 99) and -3 <= i <= 2") for s in (5, 6, 7, 8, 10)],
                                             [(f"c{c}".replace("-", "m"), f"c1 == {c}") for c in (1, -1, 2, -2)],
                                             [("in", "i < 0"), ("ip", "i >= 0")]) +
                               # two-stage families: whole / half-open inner slices, outer bounds in [-2,2] or None
@@ -208,7 +215,7 @@ def _parts(sels, steps1):
                               [("s4", "sel == 4 and c1 == 1 and a1 == 0 and b1 == 0")]},
          },
          sample=(1, 3, 1, NONE, NONE, -1, 0, 2, 1, 0),
-         bounds=f"W={W}: parent widths 1..{W} (second bus 1..2), bounds in [-{2*W},{2*W}] or None, steps +-1..+-{W}, index in [-{2*W},{2*W}]; 10 expression families, depth <= 2 (quick tier: narrower, see pre)",
+         bounds=f"W={W}: parent widths 1..{W} (second bus 1..2), bounds in [-{2*W},{2*W}] or None, steps +-1..+-{W}, index in [-{2*W},{2*W}]; 11 expression families, depth <= 2 (quick tier: narrower, see pre)",
          generalises="widths, bounds, steps, index (bounded box); exhaustiveness by path enumeration",
          outside="wider buses, depth-3 nesting, steps beyond +-3")
 def nested_resolution(sel, w1, w2, a1, b1, c1, a2, b2, c2, i):
